@@ -7,7 +7,7 @@ import re
 
 from . import rustscan as rs
 
-DEFAULT_RULES = {'R1', 'R2', 'R5', 'R6', 'R7', 'R14', 'R15', 'R16'}
+DEFAULT_RULES = {'R1', 'R2', 'R5', 'R6', 'R7', 'R13', 'R14', 'R15', 'R16'}
 
 
 class Refuse(Exception):
@@ -254,6 +254,11 @@ def rule_R13(text, fired):
     def rep2(m):
         return f'str_slice(&{m.group(1)}, {m.group(2)}, {m.group(3)})'
     text, n = re.subn(r'((?:self\.)?[A-Za-z_#][A-Za-z0-9_#\.]*)\[\s*([^\[\]\.]+?)\s*\.\.\s*([^\[\]\.]+?)\s*\]', rep2, text)
+    _count(fired, 'R13', n)
+
+    def rep0(m):
+        return f'str_slice(&{m.group(1)}, 0, {m.group(2)})'
+    text, n = re.subn(r'((?:self\.)?[A-Za-z_#][A-Za-z0-9_#\.]*)\[\s*\.\.\s*([^\[\]]+?)\s*\]', rep0, text)
     _count(fired, 'R13', n)
 
     def rep1(m):
